@@ -1,6 +1,7 @@
 import AnySyncModel.Core.Wire
 import AnySyncModel.Driver.NodeConf
 import AnySyncModel.Space.Model
+import AnySyncModel.Space.OneToOne
 /-! line protocol for area `space` (C13)
 
   o2o <a> <b> <type> <mont a> <mont b>  → symbolic term of the derived space (shared secret | KDF context, sorted writers, type)
@@ -17,6 +18,11 @@ import AnySyncModel.Space.Model
        o:<b>                           one-to-one info decodes
        k:<b>=<key>                     public key decodes (key = symbol of its raw form)
        v:<key>,<msg>,<sig>             signature verifies
+  o2ost <myKey> <owner|-> <w,w,…|-> <entry> …   → `setOneToOneAcl` on the decoded one-to-one info, built by
+     the account whose public key is <myKey> (its secret key is symbol 0; a joint secret key is named by
+     its public key): `err:<class>` | `ok me=<b> keys=<joint|-> acc=<key>:<O|W>,…` (ascending keys)
+     entries: k:<b>=<key> (bytes unmarshal to key)  m:<key>=<b> (key marshals to bytes)
+              s:<bobKey>=<joint> (GenerateSharedKey(me, bobKey) succeeds with that joint key)
 -/
 namespace AnySync.Driver.Space
 open AnySync.Space AnySync.Wire
@@ -120,6 +126,32 @@ def showErr : Err → String
 def optNat? (s : String) : Option (Option Nat) :=
   if s = "-" then some none else s.toNat?.map some
 
+structure O2OTables where
+  k : List (Nat × Nat) := []
+  m : List (Nat × Nat) := []
+  s : List (Nat × Nat) := []
+
+def parseO2O : List String → O2OTables → Option O2OTables
+  | [], t => some t
+  | e :: es, t =>
+    match e.splitOn ":" with
+    | [tag, rest] =>
+      match kv rest with
+      | some (a, b) =>
+        match a.toNat?, b.toNat? with
+        | some a, some b =>
+          if tag = "k" then parseO2O es { t with k := (a, b) :: t.k }
+          else if tag = "m" then parseO2O es { t with m := (a, b) :: t.m }
+          else if tag = "s" then parseO2O es { t with s := (a, b) :: t.s }
+          else none
+        | _, _ => none
+      | none => none
+    | _ => none
+
+def showO2OErr : O2OErr → String
+  | .count => "err:count" | .ownerEmpty => "err:owner-empty" | .key => "err:key"
+  | .shared => "err:shared" | .ownerMismatch => "err:owner-mismatch"
+
 def step (line : String) : String :=
   match tokens line with
   | "val" :: mode :: p :: entries =>
@@ -140,6 +172,22 @@ def step (line : String) : String :=
         | _, _, _ => "bad-op"
       | _ => "bad-op"
     | _, _ => "bad-op"
+  | "o2ost" :: myKey :: owner :: ws :: entries =>
+    match myKey.toNat?, optNat? owner, parseO2O entries {},
+          (if ws = "-" then some [] else (ws.splitOn ",").mapM (·.toNat?)) with
+    | some myKey, some owner, some t, some ws =>
+      let P : O2OPrims := {
+        decKey := fun b => look t.k b
+        marshal := fun k => (look t.m k).getD (k + 900000007)
+        pub := fun x => if x = 0 then myKey else x
+        shared := fun _ bob => look t.s bob }
+      match setOneToOne P 0 ⟨owner, ws⟩ with
+      | .error e => showO2OErr e
+      | .ok st =>
+        let ks := (st.accounts.map (·.1)).eraseDups.mergeSort (· ≤ ·)
+        let acc := ks.map fun k => s!"{k}:{match lookupAcc st.accounts k with | some .owner => "O" | some .writer => "W" | none => "?"}"
+        s!"ok me={showBool st.foundMe} keys={match st.keys with | some k => toString k | none => "-"} acc={",".intercalate acc}"
+    | _, _, _, _ => "bad-op"
   | ["o2o", a, b, ty, ma, mb] =>
     -- symbolic one-to-one derivation: secret key n has identity n; the X25519 images of the two
     -- identities are data (`ma`, `mb`, computed by the real conversion); X25519 is the canonical
